@@ -131,7 +131,7 @@ int main()
     SNAPH = ["IMP(verif_hi < %s, %s)" % (N, EQ(B + "[verif_hi]", "g_s_hi")), "IMP(verif_hj < %s, %s)" % (N, EQ(B + "[verif_hj]", "g_s_hj"))]
     UNIQH = "IMP(verif_hi < verif_hj && verif_hj < %s, %s[verif_hi].first != %s[verif_hj].first)" % (N, B, B)
     U.fn("fm_erase", requires=[INV, KEYSEP, UNIQH, "__verif_exc == 0"] + SNAP + SNAPH, assigns=[V, "__CPROVER_object_whole(%s)" % B, "__verif_exc"] + SPG, frees=[B], apply_loops=True,
-         pre_call=map_harness(), ptr_requires=True, timeout=1500, solver=["--sat-solver", "cadical"], flags=["--unwind", "3", "--unwinding-assertions"], ensures={
+         pre_call=map_harness(), ptr_requires=True, timeout=1500, solver=["--sat-solver", "cadical"], flags=["--unwind", "16", "--unwinding-assertions"], ensures={
         "storage_stays_well_formed": INV, "erase_never_throws": "__verif_exc == 0",
         "size_is_the_number_of_entries_kept": "%s == verif_sp_kept && %s <= %s" % (N, N, N0),
         "every_other_entry_survives": "IMP(verif_gi < %s && %s, verif_sp_dest_i < %s && %s)" % (N0, KS("g_s_gi"), N, EQ("%s[verif_sp_dest_i]" % B, "g_s_gi")),
